@@ -28,6 +28,10 @@ Inductive wval :=
 | VO (o : option wval)
 | VE (tag : nat) (v : wval).
 
+(** Logical type of a field of the logical [Pczt] (how the Debug tree carries it): integer, opaque
+    leaf, optional opaque leaf, [EncCiphertext], map of opaque leaves, record, vector of records. *)
+Inductive ltype := LNum | LAtom | LOpt | LEnum | LMap | LRec (ls : list ltype) | LVec (l : ltype).
+
 (** * Varints (postcard/src/varint.rs, de/deserializer.rs [try_take_varint_*]) *)
 Definition varint_max (bits : N) : nat := N.to_nat ((bits + 6) / 7).
 Definition max_of_last_byte (bits : N) : N := 2 ^ (bits mod 7) - 1.
